@@ -418,6 +418,50 @@ def r10_13(ctx: Ctx, rule: str = "R10.13") -> None:
                   construct="EmptyFile bits assignment")
 
 
+def r10_15(ctx: Ctx, rule: str = "R10.15") -> None:
+    """writer side of R10.13: the vector written under PROPERTY.EMPTY_FILE has one entry per member WITH an empty stream, in member order,
+    taken from that member's `emptyfile` flag - a comprehension (or loop with append) over `self.files` FILTERED by `emptystream`.  One
+    entry per member (the filter moved into the value) is a vector the reader hands out to the wrong members: after an append the old
+    empty file is a directory and the directory an empty file."""
+    f = ctx.prog.func("archiveinfo", "FilesInfo.write")
+    from ..cfg import cfg_of as _cfg
+    cfg = _cfg(f.node)
+    marks = [c for c in q.calls(f) if attr_tail(c) == "write_byte" and len(c.args) > 1 and norm(c.args[1]) == "PROPERTY.EMPTY_FILE"]
+    ctx.floor(rule, len(marks), 1, "EmptyFile record in FilesInfo.write")
+    for mk in marks:
+        vecs = [c for c in q.calls(f) if attr_tail(c) == "write_boolean" and len(c.args) > 1 and cfg.dominates(q.node_for(f, mk), q.node_for(f, c))
+                and q.facts_at(f, c) and [norm(a) for a, _ in q.facts_at(f, c)] == [norm(a) for a, _ in q.facts_at(f, mk)]]
+        ctx.need(bool(vecs), "FilesInfo.write: no bit vector follows the EmptyFile id")
+        v = vecs[0].args[1]
+        vals = q.assigned_values(f, v.id) if isinstance(v, ast.Name) else [v]
+        ok = bool(vals)
+        for val in vals:
+            if isinstance(val, (ast.ListComp, ast.GeneratorExp)) and len(val.generators) == 1 and isinstance(val.generators[0].target, ast.Name):
+                gen = val.generators[0]
+                m = gen.target.id
+                filt = any(pol and norm(a) in (f"{m}['emptystream']", f"{m}.get('emptystream')", f"{m}.get('emptystream', False)")
+                           for cond in gen.ifs for a, pol in q.atoms(cond, True))
+                over = norm(gen.iter) == "self.files"
+                src = any(isinstance(x, ast.Constant) and x.value == "emptyfile" for x in ast.walk(val.elt))
+                ok = ok and filt and over and src
+            elif isinstance(val, ast.List) and not val.elts and isinstance(v, ast.Name):
+                apps = [c for c in q.calls(f) if attr_tail(c) == "append" and norm(c.func.value) == v.id]
+                ok = ok and bool(apps)
+                for a_ in apps:
+                    lp = q.enclosing_loops(f, a_)
+                    m = lp[-1].target.id if lp and isinstance(lp[-1].target, ast.Name) else None
+                    ok = ok and m is not None and norm(lp[-1].iter) == "self.files" and any(
+                        pol and norm(a) in (f"{m}['emptystream']", f"{m}.get('emptystream')", f"{m}.get('emptystream', False)") for a, pol in q.facts_at(f, a_)) \
+                        and any(isinstance(x, ast.Constant) and x.value == "emptyfile" for x in ast.walk(a_))
+            else:
+                ok = False
+        ctx.check(ok, rule, f, vecs[0], "the EmptyFile vector written has one entry per member with an empty stream",
+                  f"the vector written under PROPERTY.EMPTY_FILE (`{norm(v)}`) is not built from the `emptyfile` flags of exactly the members of `self.files` that have an empty "
+                  "stream (filter `f['emptystream']`), in order: with one entry per MEMBER the reader (which hands the bits to the empty-stream members in turn) gives the flags to the "
+                  "wrong members - after an append to an archive where a data member precedes an empty file, the old empty file is a directory and the directory an empty file",
+                  construct="EmptyFile vector written")
+
+
 def r10_14(ctx: Ctx, rule: str = "R10.14") -> None:
     """the listing of a write session describes what was ARCHIVED: Worker.archive stores the member's `uncompressed` size on every path - the
     size that went into the stream (the last entry of substreamsinfo.unpacksizes) for a member with a stream, 0 for one without.  _make_file_info
@@ -465,6 +509,7 @@ def r10_12(ctx: Ctx) -> None:
 def run(ctx: Ctx) -> None:
     r10_14(ctx)
     r10_13(ctx)
+    r10_15(ctx)
     r10_12(ctx)
     r10_11(ctx)
     from . import c08 as _c08
